@@ -34,8 +34,11 @@ def worker(case):
             leafdef = next(d for l in n.libraries for d in l.definitions if elab.is_leaf_def(d) and d.ports)
             for d in [top] + [d for l in n.libraries for d in l.definitions if d is not top and not elab.is_leaf_def(d)]:
                 for k in range(3):
-                    d.create_cable(name="spare_c%d" % k)["EDIF.identifier"] = "cable_sdn_flat_%d" % (k if d is top else k + 3)
-                    d.create_child(name="spare_x%d" % k, reference=leafdef)["EDIF.identifier"] = "instance_sdn_flat_%d" % (k if d is top else k + 3)
+                    # (identifiers compare case-insensitively: every other spare is spelled in upper case)
+                    cid = "cable_sdn_flat_%d" % (k if d is top else k + 3)
+                    xid = "instance_sdn_flat_%d" % (k if d is top else k + 3)
+                    d.create_cable(name="spare_c%d" % k)["EDIF.identifier"] = cid.upper() if k % 2 == 0 else cid
+                    d.create_child(name="spare_x%d" % k, reference=leafdef)["EDIF.identifier"] = xid.upper() if k % 2 == 0 else xid
 
     key = _hier.key_of(case, n)
     tag = "%s:%s" % (case[0][0], case[2] if len(case) > 2 else case[0][2])
